@@ -180,7 +180,7 @@ LINEAR = {
     'dynamic_slice': [0], 'dynamic_update_slice': [0, 1], 'gather': [0], 'scatter': [0, 2],
     'scatter-add': [0, 2], 'scatter_add': [0, 2], 'reduce_sum': [0], 'cumsum': [0], 'unstack': [0],
     'split': [0], 'neg': [0], 'convert_element_type': [0], 'real': [0], 'imag': [0],
-    'reduce_precision': [0],
+    'reduce_precision': [0], 'tile': [0], 'roll': [0], 'diagonal': [0], 'triu': [0], 'tril': [0],
 }
 BILINEAR = {'dot_general': (0, 1), 'conv_general_dilated': (0, 1), 'csr_matvec': (0, 3),
             'csr_matmat': (0, 3)}
@@ -520,6 +520,12 @@ def elementwise(name, eqn, ins, ctx):
     if name in ('max', 'min'):
         op = 'ge' if name == 'max' else 'le'
         return [_map(lambda a, b: _ite_atom(BoolE('cmp', op, a, b), a, b, ctx), o[0], o[1])]
+    if name == 'clamp':
+        # clamp(lo, x, hi) = min(max(x, lo), hi)
+        def cl(lo, x, hi):
+            m = _ite_atom(BoolE('cmp', 'ge', x, lo), x, lo, ctx)
+            return _ite_atom(BoolE('cmp', 'le', m, hi), m, hi, ctx)
+        return [_map(cl, o[0], o[1], o[2])]
     if name == 'abs':
         return [_map(lambda a: _ite_atom(BoolE('cmp', 'ge', a, Poly()), a, -a, ctx), o[0])]
     if name == 'sign':
